@@ -41,8 +41,29 @@ template<class Tup> auto tup_to_vec(Tup const& t) {
 }
 inline auto tup_to_vec(multi::detail::tuple<> const& /*t*/) { return std::vector<idx_t>{}; }
 
+// visitor giving harnesses typed access to the held view (one overload per rank)
+template<class T> struct Visitor {
+	virtual ~Visitor() = default;
+	virtual void on(V<T, 1>& v) = 0;
+	virtual void on(V<T, 2>& v) = 0;
+	virtual void on(V<T, 3>& v) = 0;
+	virtual void on(V<T, 4>& v) = 0;
+	virtual void on(V<T, 5>& v) = 0;
+	virtual void on(V<T, 6>& v) = 0;
+};
+// CRTP helper: derive from Typed<T, Self> and write  template<int D> void go(V<T,D>&)
+template<class T, class Self> struct Typed : Visitor<T> {
+	void on(V<T, 1>& v) override { static_cast<Self*>(this)->template go<1>(v); }
+	void on(V<T, 2>& v) override { static_cast<Self*>(this)->template go<2>(v); }
+	void on(V<T, 3>& v) override { static_cast<Self*>(this)->template go<3>(v); }
+	void on(V<T, 4>& v) override { static_cast<Self*>(this)->template go<4>(v); }
+	void on(V<T, 5>& v) override { static_cast<Self*>(this)->template go<5>(v); }
+	void on(V<T, 6>& v) override { static_cast<Self*>(this)->template go<6>(v); }
+};
+
 template<class T> struct Base {
 	virtual ~Base() = default;
+	virtual void accept(Visitor<T>& vis) = 0;
 	virtual int rank() const = 0;
 	virtual std::unique_ptr<Base> apply(Op const& op) = 0;
 	virtual std::vector<idx_t> sizes() const = 0;
@@ -75,6 +96,7 @@ template<class T, int D> struct Holder : Base<T> {
 	template<class L> Holder(L const& l, T* b) : v(l, b) {}
 
 	int rank() const override { return D; }
+	void accept(Visitor<T>& vis) override { vis.on(v); }
 	std::vector<idx_t> sizes() const override { return tup_to_vec(v.sizes()); }
 	std::vector<idx_t> strides() const override { return tup_to_vec(v.strides()); }
 	std::vector<std::pair<idx_t, idx_t>> extensions() const override {
